@@ -30,6 +30,9 @@ def cases(tier):
             if m == 3 and it > 1:
                 continue  # degree blow-up: z3 returns unknown on branch feasibility (measured); outside the bound
             cs.append(dict(name=f"mgda_m{m}_it{it}", fn="mgda", args=dict(m=m, iters=it), weight=2 * it))
+            if m == 2:
+                # the same clause on the free (low-degree) Gramian domain: stays decidable for variants whose arithmetic is not scale-free
+                cs.append(dict(name=f"mgda_free_m{m}_it{it}", fn="mgda", args=dict(m=m, iters=it, free=True), weight=2 * it))
     for m in (1, 2, 3):
         cs.append(dict(name=f"random_m{m}", fn="random", args=dict(m=m)))
     for m in ((1, 2, 3) if tier == "thorough" else (1, 2)):
@@ -119,8 +122,8 @@ def case_pcgrad_vec(sp, m, n):
 
 
 # ------------------------------------------------------------------------------------------- MGDA
-def case_mgda(sp, m, iters):
-    if m == 2:
+def case_mgda(sp, m, iters, free=False):
+    if m == 2 and not free:
         # spectral domain (all 2 x 2 Gramians) with the eigenbasis hint: a variant of the code that goes through an SVD stays analysable
         G, hint, sig = spectral_gram(m)
         set_kernels(eigbasis=hint)
